@@ -504,7 +504,8 @@ def run(chk, replay=None):
                     guarded(pe.paired_t_test, fc, fc_other, cat, scale=True)
                     guarded(be.binary_paired_t_test, fc_other, fc, cat, scale=True)
                     guarded(pe.w_test, fc, fc_other, cat, scale=True)
-                r_ = guarded_timeout(10, fn, s)
+                # (the second run passes the same seed as a numpy integer - an element of an array of seeds)
+                r_ = guarded_timeout(10, fn, s if pre == 123 else (numpy.int64(s) if s % 2 else numpy.arange(s, s + 1, dtype=numpy.uint32)[0]))
                 chk.count()
                 runs.append('raised' if isinstance(r_, Raised) else digest(r_))
             add_trace(base_trace(kind='det', runs=runs), {'label': 'determinism', 'test': name, 'seed': s, 'runs': runs}, False)
